@@ -359,7 +359,15 @@ impl VM {
                 }
                 OpCode::Call => {
                     let num_args = self.read_u8();
-                    let base_pointer = self.stack.len() as u16 - 1 - num_args as u16;
+                    // the frame starts below the arguments; it must be addressable with 16 bits
+                    let base_pointer: u16 = match (self.stack.len() - 1 - num_args as usize).try_into() {
+                        Ok(base_pointer) => base_pointer,
+                        Err(_) => {
+                            return Err(Error::ArgumentError(
+                                "stapel overloop: te veel waardes op de stapel".to_string(),
+                            ))
+                        }
+                    };
                     let obj = self.pop();
                     if obj.tag() != Type::Function {
                         return Err(Error::TypeError(format!(
